@@ -6,6 +6,17 @@ import LinOp.C20.ProofsExtra
 import LinOp.C20.ProofsAdjoint
 import LinOp.C20.ProofsGetitemFold
 import LinOp.C20.ProofsBdsmm
+import LinOp.C20.ProofsBcast
+import LinOp.C20.ProofsRepeatFold
+import LinOp.C20.ProofsModel2
+import LinOp.C20.ProofsCompose
+import LinOp.C20.ProofsGeneral
+import LinOp.C20.ProofsLift
+import LinOp.C20.ProofsLift2
+import LinOp.C20.ProofsLift3
+import LinOp.C20.ProofsGlue
+import LinOp.C20.ProofsBackward
+import LinOp.Generated.C20Facts
 /-!
 C20 — utility kernels equal their dense definitions.  Property theorems only (proofs in `LinOp/C20/Proofs*.lean`).
 
@@ -444,6 +455,380 @@ theorem bdsmm_batched_dense2d_def {α : Type} [CommRing α] (s : Sp α) (d : Tn 
 
 example : InBox [1, 2] [2, 3] := by
   refine List.Forall₂.cons (by omega) (List.Forall₂.cons (by omega) List.Forall₂.nil)
+
+
+
+/-! ## Extension session 5 -/
+
+/-- `sparse_repeat`: the loop `for i, repeat_size in enumerate(repeat_sizes)` (current code) over ANY list of repeat sizes, started
+at any dimension `i`: entry `idx` of the result is the original entry with positions `i … i+len-1` reduced modulo the original
+sizes (induction over the list of repeat sizes; the step is `sparse_repeat_def`). -/
+theorem repeat_loop_def {α : Type} [AddCommMonoid α] (reps : List Nat) (i : Nat) (s : Sp α) (idx : List Nat)
+    (hi : i + reps.length ≤ s.shape.length) (hlen : idx.length = s.shape.length) (hbox : EntsInBox s)
+    (hidx : ∀ k, k < reps.length → idx.getD (i + k) 0 < reps.getD k 0 * s.shape.getD (i + k) 0) :
+    densify (repeatLoop true i reps s).ents idx = densify s.ents (modAt i reps.length s.shape idx) :=
+  _root_.LinOp.C20.repeat_loop_def reps i s idx hi hlen hbox hidx
+
+/-- `sparse_repeat(sparse, *repeat_sizes)` with one repeat size per dimension — ANY rank, ANY repeat sizes, several repeated
+dimensions of any size: the dense `repeat`, `out[idx] = sparse[idx mod shape]`. -/
+theorem sparse_repeat_fold_def {α : Type} [AddCommMonoid α] (s : Sp α) (reps idx : List Nat)
+    (hr : reps.length = s.shape.length) (hlen : idx.length = s.shape.length) (hbox : EntsInBox s)
+    (hidx : ∀ k, k < reps.length → idx.getD k 0 < reps.getD k 0 * s.shape.getD k 0) :
+    densify (sparseRepeat true s reps).ents idx = densify s.ents (modAt 0 s.shape.length s.shape idx) :=
+  _root_.LinOp.C20.sparse_repeat_fold_def s reps idx hr hlen hbox hidx
+
+example : EntsInBox (⟨[2, 1, 2], [([1, 0, 1], 5), ([0, 0, 0], 7)]⟩ : Sp Int) ∧
+    densify (sparseRepeat true (⟨[2, 1, 2], [([1, 0, 1], 5), ([0, 0, 0], 7)]⟩ : Sp Int) [2, 3, 1]).ents [3, 2, 1] = 5 ∧
+    modAt 0 3 [2, 1, 2] [3, 2, 1] = [1, 0, 1] := by
+  refine ⟨by unfold EntsInBox; decide, by decide, by decide⟩
+
+/-- the flattened product of `bdsmm`'s first branch for ANY flattened dense operand: row `flat(b)·m + i` of
+`blockdiag(S) · dense2` is `Σ_j S[b,i,j] · dense2[flat(b)·n + j]`. -/
+theorem blockdiag_batch_core {α : Type} [CommRing α] (ents : Ents α) (bshape : List Nat) (m n : Nat) (dense2 : Nat → Nat → α)
+    (hents : BatchedEntsOk ents bshape m n) (b : List Nat) (hbox : InBox b bshape) (i c : Nat) (hi : i < m) :
+    spmm (blockDiagEnts bshape m n ents) dense2 (flat bshape b * m + i) c
+      = sumN n fun j => densify ents (b ++ [i, j]) * dense2 (flat bshape b * n + j) c :=
+  _root_.LinOp.C20.blockdiag_batch_core ents bshape m n dense2 hents b hbox i c hi
+
+/-- `bdsmm`, first branch, ANY sparse batch shape × ANY dense batch shape accepted by `_matmul_broadcast_shape` (different ranks,
+size-1 dimensions on either side): the result at batch index `b` of the broadcast batch shape is `S'[b] · D[restrict b]`, where
+`S' = sparse_repeat(sparse, *repeat_sizes)` with exactly the repeat sizes the code computes (`bdsmmReps`; `S'` itself is
+characterised by `sparse_repeat_fold_def` / `repeat_loop_def`) and the dense operand is read with `expand` semantics. -/
+theorem bdsmm_bcast_def {α : Type} [CommRing α] (s : Sp α) (d : Tn α) (bshape db : List Nat) (m n p : Nat)
+    (hsl : s.shape.length > 2) (hd : d.shape = db ++ [n, p])
+    (hmb : matmulBroadcastShape s.shape d.shape = .ok (bshape ++ [m, p]))
+    (hs' : (sparseRepeat true s (bdsmmReps s.shape (bshape ++ [m, p]))).shape = bshape ++ [m, n])
+    (hents : BatchedEntsOk (sparseRepeat true s (bdsmmReps s.shape (bshape ++ [m, p]))).ents bshape m n)
+    (b : List Nat) (hbox : InBox b bshape) (i c : Nat) (hi : i < m) (hn : 0 < n) :
+    ∃ t, bdsmm true s d = .ok t ∧ t.shape = bshape ++ [m, p] ∧
+      t.get (b ++ [i, c]) = sumN n fun j =>
+        densify (sparseRepeat true s (bdsmmReps s.shape (bshape ++ [m, p]))).ents (b ++ [i, j])
+          * d.get (restrictIdx db b ++ [j, c]) :=
+  _root_.LinOp.C20.bdsmm_bcast_def s d bshape db m n p hsl hd hmb hs' hents b hbox i c hi hn
+
+/-- satisfiable: sparse batch `(1,)` against dense batch `(3,)` — the size-1 dimension is repeated 3 times -/
+example : matmulBroadcastShape [1, 2, 2] [3, 2, 1] = .ok ([3] ++ [2, 1]) ∧ bdsmmReps [1, 2, 2] ([3] ++ [2, 1]) = [3, 1, 1] ∧
+    (sparseRepeat true (⟨[1, 2, 2], [([0, 1, 0], 4)]⟩ : Sp Int) [3, 1, 1]).shape = [3] ++ [2, 2] := by decide
+
+/-- `sparse_repeat` (current code; any repeat sizes, with or without new leading dimensions) keeps every stored index tuple inside
+the box of the result's shape — the invariant that makes the repeated tensor a legal operand of the block-diagonal flattening. -/
+theorem sparse_repeat_inBox {α : Type} (s : Sp α) (reps : List Nat) (hr : s.shape.length ≤ reps.length) (h : EntsInBox s) :
+    EntsInBox (sparseRepeat true s reps) :=
+  _root_.LinOp.C20.sparse_repeat_inBox s reps hr h
+
+/-- `bdsmm`, first branch, ANY sparse batch shape × ANY dense batch shape, with well-formedness required of the ORIGINAL sparse
+operand only (entries inside the box of its own shape; the invariant is carried through `sparse_repeat` by `sparse_repeat_inBox`):
+`out[b] = S'[b] · D[restrict b]`. -/
+theorem bdsmm_bcast_wf_def {α : Type} [CommRing α] (s : Sp α) (d : Tn α) (bshape db : List Nat) (m n p : Nat)
+    (hsl : s.shape.length > 2) (hd : d.shape = db ++ [n, p])
+    (hmb : matmulBroadcastShape s.shape d.shape = .ok (bshape ++ [m, p]))
+    (hrank : s.shape.length ≤ bshape.length + 2)
+    (hs' : (sparseRepeat true s (bdsmmReps s.shape (bshape ++ [m, p]))).shape = bshape ++ [m, n])
+    (hbox : EntsInBox s)
+    (b : List Nat) (hb : InBox b bshape) (i c : Nat) (hi : i < m) (hn : 0 < n) :
+    ∃ t, bdsmm true s d = .ok t ∧ t.shape = bshape ++ [m, p] ∧
+      t.get (b ++ [i, c]) = sumN n fun j =>
+        densify (sparseRepeat true s (bdsmmReps s.shape (bshape ++ [m, p]))).ents (b ++ [i, j])
+          * d.get (restrictIdx db b ++ [j, c]) :=
+  _root_.LinOp.C20.bdsmm_bcast_wf_def s d bshape db m n p hsl hd hmb hrank hs' hbox b hb i c hi hn
+
+/-- satisfiable: sparse batch `(2,)` against dense batch `(3, 1)` — one new leading dimension, repeated 3 times -/
+example : matmulBroadcastShape [2, 2, 2] [3, 1, 2, 1] = .ok ([3, 2] ++ [2, 1]) ∧ bdsmmReps [2, 2, 2] ([3, 2] ++ [2, 1]) = [3, 1, 1, 1] ∧
+    (sparseRepeat true (⟨[2, 2, 2], [([1, 1, 0], 4)]⟩ : Sp Int) [3, 1, 1, 1]).shape = [3, 2] ++ [2, 2] ∧
+    densify (sparseRepeat true (⟨[2, 2, 2], [([1, 1, 0], 4)]⟩ : Sp Int) [3, 1, 1, 1]).ents ([2, 1] ++ [1, 0]) = 4 := by decide
+
+/-- **`bdsmm` with broadcasting, end to end.**  For a batched sparse operand of shape `(sb…, m, n)` and a dense operand of shape
+`(db…, n, p)`: if the code's own `_matmul_broadcast_shape` accepts the shapes with broadcast batch shape `bshape` (non-empty batch,
+`m, n > 0`) and the stored indices of the sparse operand are inside its shape, then `bdsmm` returns a tensor of shape `(bshape…, m, p)` with
+`out[b, i, c] = Σ_j S[(b right-aligned) mod sb, i, j] · D[restrict b, j, c]` — missing leading sparse batch dimensions and sparse batch
+dimensions of size 1 are broadcast, i.e. `torch.matmul(sparse.to_dense(), dense)`.  No hypothesis on how the two batch shapes relate
+is needed beyond the success of the shape function (`broadcastShapes_spec` derives the broadcast relation from it). -/
+theorem bdsmm_broadcast_def {α : Type} [CommRing α] (s : Sp α) (d : Tn α) (sb bshape db : List Nat) (m n p : Nat)
+    (hsb : sb ≠ []) (hs : s.shape = sb ++ [m, n]) (hd : d.shape = db ++ [n, p])
+    (hmb : matmulBroadcastShape s.shape d.shape = .ok (bshape ++ [m, p]))
+    (hpos : ∀ o ∈ bshape, 0 < o) (hbox : EntsInBox s)
+    (b : List Nat) (hb : InBox b bshape) (i c : Nat) (hi : i < m) (hn : 0 < n) :
+    ∃ t, bdsmm true s d = .ok t ∧ t.shape = bshape ++ [m, p] ∧
+      t.get (b ++ [i, c]) = sumN n fun j =>
+        densify s.ents (List.zipWith (· % ·) ((b ++ [i, j]).drop (bshape.length - sb.length)) s.shape)
+          * d.get (restrictIdx db b ++ [j, c]) :=
+  _root_.LinOp.C20.bdsmm_broadcast_def s d sb bshape db m n p hsb hs hd hmb hpos hbox b hb i c hi hn
+
+/-- satisfiable and non-trivial: sparse batch `(1, 2)` × dense batch `(3, 1)` (both sides are broadcast) -/
+example : matmulBroadcastShape ([1, 2] ++ [2, 2]) ([3, 1] ++ [2, 1]) = .ok ([3, 2] ++ [2, 1]) ∧ (∀ o ∈ [3, 2], 0 < o) ∧
+    List.zipWith (· % ·) (([2, 1] ++ [1, 0]).drop ([3, 2].length - [1, 2].length)) ([1, 2] ++ [2, 2]) = [0, 1, 1, 0] ∧
+    restrictIdx [3, 1] [2, 1] = [2, 0] := by decide
+
+/-- `bdsmm`, batched sparse × dense with GENUINELY DIFFERENT batch shapes (sparse batch of lower rank than the output batch,
+size-1 sparse batch dimensions repeated, dense batch broadcast independently) — the whole function composed end to end:
+`_matmul_broadcast_shape`, the repeat sizes `output_size // sparse_size`, `sparse_repeat` (new leading dimensions + its loop,
+`repeat_loop_def`), the block-diagonal flattening (`blockdiag_batch_core`), the flattened expanded dense operand, `torch.dsmm`'s
+contract and the final `view`: `out[b,i,c] = Σ_j S[(b right-aligned) mod sparse batch shape, i, j] · D[restrict b, j, c]` for every
+non-empty batch shape.  `BcTo` says that every (right-aligned, padded) sparse size equals the output size or is 1. -/
+theorem bdsmm_general_def {α : Type} [CommRing α] (s : Sp α) (d : Tn α) (sb bshape db : List Nat) (m n p : Nat)
+    (hsb : sb ≠ []) (hs : s.shape = sb ++ [m, n]) (hd : d.shape = db ++ [n, p])
+    (hmb : matmulBroadcastShape s.shape d.shape = .ok (bshape ++ [m, p]))
+    (hle : sb.length ≤ bshape.length)
+    (hbc : BcTo (List.replicate (bshape.length - sb.length) 1 ++ (sb ++ [m, n])) (bshape ++ [m, n]))
+    (hbox : EntsInBox s)
+    (b : List Nat) (hb : InBox b bshape) (i c : Nat) (hi : i < m) (hn : 0 < n) :
+    ∃ t, bdsmm true s d = .ok t ∧ t.shape = bshape ++ [m, p] ∧
+      t.get (b ++ [i, c]) = sumN n fun j =>
+        densify s.ents (List.zipWith (· % ·) ((b ++ [i, j]).drop (bshape.length - sb.length)) s.shape)
+          * d.get (restrictIdx db b ++ [j, c]) :=
+  _root_.LinOp.C20.bdsmm_general_def s d sb bshape db m n p hsb hs hd hmb hle hbc hbox b hb i c hi hn
+
+/-- satisfiable: sparse batch `(1,)` (padded to `(1, 1)`) against the output batch `(3, 2)` produced by a dense batch `(3, 2)` -/
+example : BcTo (List.replicate ([3, 2].length - [1].length) 1 ++ ([1] ++ [2, 2])) ([3, 2] ++ [2, 2]) ∧
+    matmulBroadcastShape ([1] ++ [2, 2]) ([3, 2] ++ [2, 5]) = .ok ([3, 2] ++ [2, 5]) ∧
+    List.zipWith (· % ·) (([2, 1] ++ [1, 0]).drop ([3, 2].length - [1].length)) ([1] ++ [2, 2]) = [0, 1, 0] := by
+  refine ⟨?_, by decide, by decide⟩
+  exact List.Forall₂.cons ⟨Or.inr rfl, by decide⟩ (List.Forall₂.cons ⟨Or.inr rfl, by decide⟩
+    (List.Forall₂.cons ⟨Or.inl rfl, by decide⟩ (List.Forall₂.cons ⟨Or.inl rfl, by decide⟩ List.Forall₂.nil)))
+
+/-- `bdsmm`, sparse operand with the full output batch shape × dense operand of ANY batch shape that broadcasts to it (fewer
+dimensions, size-1 dimensions, none): `out[b] = S[b] · D[restrict b]` for every batch shape.  Generalises `bdsmm_batched_def`
+and `bdsmm_batched_dense2d_def`. -/
+theorem bdsmm_bcast_dense_def {α : Type} [CommRing α] (s : Sp α) (d : Tn α) (bshape db : List Nat) (m n p : Nat)
+    (hb : bshape ≠ []) (hs : s.shape = bshape ++ [m, n]) (hd : d.shape = db ++ [n, p])
+    (hmb : matmulBroadcastShape (bshape ++ [m, n]) (db ++ [n, p]) = .ok (bshape ++ [m, p]))
+    (hents : BatchedEntsOk s.ents bshape m n)
+    (b : List Nat) (hbox : InBox b bshape) (i c : Nat) (hi : i < m) (hn : 0 < n) :
+    ∃ t, bdsmm true s d = .ok t ∧ t.shape = bshape ++ [m, p] ∧
+      t.get (b ++ [i, c]) = sumN n fun j => densify s.ents (b ++ [i, j]) * d.get (restrictIdx db b ++ [j, c]) :=
+  _root_.LinOp.C20.bdsmm_bcast_dense_def s d bshape db m n p hb hs hd hmb hents b hbox i c hi hn
+
+example : matmulBroadcastShape ([2, 3] ++ [2, 2]) ([3] ++ [2, 1]) = .ok ([2, 3] ++ [2, 1]) ∧
+    matmulBroadcastShape ([2, 3] ++ [2, 2]) ([2, 1] ++ [2, 1]) = .ok ([2, 3] ++ [2, 1]) ∧ restrictIdx [2, 1] [1, 2] = [1, 0] := by decide
+
+/-- **`DSMM.backward` with broadcasting.**  For a batched sparse operand of shape `(sb…, m, n)` and a cotangent of shape `(gb…, m, p)`
+whose batch shapes broadcast (the code's `_matmul_broadcast_shape` on the TRANSPOSED sparse shape succeeds, non-empty batch): the returned
+gradient `bdsmm(sparse.mT, grad_output)` has shape `(bshape…, n, p)` and
+`grad[b, j, c] = Σ_i S[(b right-aligned) mod sb, i, j] · grad_output[restrict b, i, c]` — `Sᵀ · grad_output` per broadcast batch member
+(autograd's sum-reduction to the dense operand's shape happens outside the library). -/
+theorem dsmm_backward_broadcast_def {α : Type} [CommRing α] (s : Sp α) (g : Tn α) (sb bshape gb : List Nat) (m n p : Nat)
+    (hsb : sb ≠ []) (hs : s.shape = sb ++ [m, n]) (hg : g.shape = gb ++ [m, p])
+    (hmb : matmulBroadcastShape (sb ++ [n, m]) g.shape = .ok (bshape ++ [n, p]))
+    (hpos : ∀ o ∈ bshape, 0 < o) (hbox : EntsInBox s)
+    (b : List Nat) (hb : InBox b bshape) (j c : Nat) (hj : j < n) (hm : 0 < m) :
+    ∃ t, dsmmBackward true s g = .ok t ∧ t.shape = bshape ++ [n, p] ∧
+      t.get (b ++ [j, c]) = sumN m fun i =>
+        densify s.ents (List.zipWith (· % ·) (b.drop (bshape.length - sb.length)) sb ++ [i, j])
+          * g.get (restrictIdx gb b ++ [i, c]) :=
+  _root_.LinOp.C20.dsmm_backward_broadcast_def s g sb bshape gb m n p hsb hs hg hmb hpos hbox b hb j c hj hm
+
+example : matmulBroadcastShape ([2] ++ [3, 2]) ([3, 1] ++ [2, 4]) = .ok ([3, 2] ++ [3, 4]) ∧
+    List.zipWith (· % ·) (([2, 1] : List Nat).drop ([3, 2].length - [2].length)) [2] ++ [1, 2] = [1, 1, 2] := by decide
+
+/-- `DSMM.backward` for a batched sparse operand and a cotangent of the same batch shape, EVERY batch shape: the gradient
+w.r.t. the dense operand is `S[b]ᵀ · grad[b]`. -/
+theorem dsmm_backward_batched_def {α : Type} [CommRing α] (s : Sp α) (g : Tn α) (bshape : List Nat) (m n p : Nat)
+    (hb : bshape ≠ []) (hs : s.shape = bshape ++ [m, n]) (hg : g.shape = bshape ++ [m, p])
+    (hents : BatchedEntsOk s.ents bshape m n)
+    (b : List Nat) (hbox : InBox b bshape) (j c : Nat) (hj : j < n) :
+    ∃ t, dsmmBackward true s g = .ok t ∧ t.shape = bshape ++ [n, p] ∧
+      t.get (b ++ [j, c]) = sumN m fun i => densify s.ents (b ++ [i, j]) * g.get (b ++ [i, c]) :=
+  _root_.LinOp.C20.dsmm_backward_batched_def s g bshape m n p hb hs hg hents b hbox j c hj
+
+/-- the first branch of `bdsmm` factors through its intermediate state (`sparse_2d`, `dense_2d`): the objects compared by the
+`bdsmm_flat` correspondence cells are the ones the result is computed from. -/
+theorem bdsmm_eq_flat {α : Type} [Add α] [Zero α] [Mul α] (s : Sp α) (d : Tn α) (hsl : s.shape.length > 2) :
+    bdsmm true s d = (bdsmmFlat s d).map bdsmmUnflat :=
+  _root_.LinOp.C20.bdsmm_eq_flat s d hsl
+
+/-- `toeplitz_getitem` on arbitrary ints depends on `i - j` only (negative / beyond-`n` indices). -/
+theorem toeplitz_getitem_shift {α : Type} (n : Nat) (c r : Nat → α) (i j o : Int) :
+    toeplitzGetitemZ n c r (i + o) (j + o) = toeplitzGetitemZ n c r i j :=
+  _root_.LinOp.C20.toeplitz_getitem_shift n c r i j o
+
+/-- `toeplitz_getitem` on arbitrary ints: the Toeplitz entry by difference when `|i - j| < n`, `IndexError` otherwise. -/
+theorem toeplitz_getitem_int_def {α : Type} (n : Nat) (c r : Nat → α) (i j : Int) :
+    toeplitzGetitemZ n c r i j =
+      if (i - j).natAbs < n then .ok (if j ≤ i then c (i - j).toNat else r (j - i).toNat) else .error "IndexError" :=
+  _root_.LinOp.C20.toeplitz_getitem_int_def n c r i j
+
+/-- inside the matrix the integer version is `toeplitz_getitem_def`'s function. -/
+theorem toeplitz_getitem_nat {α : Type} (n : Nat) (c r : Nat → α) (i j : Nat) (hi : i < n) (hj : j < n) :
+    toeplitzGetitemZ n c r i j = .ok (toeplitzGetitem c r i j) :=
+  _root_.LinOp.C20.toeplitz_getitem_nat n c r i j hi hj
+
+/-- `sym_toeplitz_derivative_quadratic_form(left, right)` for inputs of shape `(*batch, m, s)` with ANY number of leading batch
+dimensions: the result has shape `(*batch, m)` and entry `(b, i)` is `Σ_j u_jᵀ (∂T/∂c_i) v_j` of batch member `b`. -/
+theorem dqf_batched_def {α : Type} [CommRing α] (left right : Tn α) (bs : List Nat) (m s : Nat) (hm : 1 ≤ m)
+    (hl : left.shape = bs ++ [m, s]) (b : List Nat) (hb : b.length = bs.length) (i : Nat) (hi : i < m) :
+    (dqf left right).shape = bs ++ [m] ∧
+    (dqf left right).get (b ++ [i]) =
+      dqfSpec m s (fun j a => left.get (b ++ [a, j])) (fun j a => right.get (b ++ [a, j])) i :=
+  _root_.LinOp.C20.dqf_batched_def left right bs m s hm hl b hb i hi
+
+/-- the 1-D form of `sym_toeplitz_derivative_quadratic_form` (one pair of vectors of length `m`). -/
+theorem dqf_vector_def {α : Type} [CommRing α] (left right : Tn α) (m : Nat) (hm : 1 ≤ m) (hl : left.shape = [m]) (i : Nat) (hi : i < m) :
+    (dqf left right).shape = [m] ∧
+    (dqf left right).get [i] = dqfSpec m 1 (fun _ a => left.get [a]) (fun _ a => right.get [a]) i :=
+  _root_.LinOp.C20.dqf_vector_def left right m hm hl i hi
+
+/-- `left_interp` — the WHOLE function for a matrix right-hand side with INDEPENDENTLY broadcast batch shapes of the index tensor,
+the value tensor and the right-hand side (any ranks, size-1 dimensions): at batch index `b` of the broadcast batch shape the result
+is `W[restrict b] · rhs[restrict b]` (duplicates within a row of indices add). -/
+theorem left_interp_batched_def {α : Type} [CommRing α] (idx : Tn Nat) (val rhs : Tn α) (ib vb rb bshape : List Nat) (R K nd cols : Nat)
+    (hi : idx.shape = ib ++ [R, K]) (hv : val.shape = vb ++ [R, K]) (hr : rhs.shape = rb ++ [nd, cols])
+    (hmb : matmulBroadcastShape (ib ++ [R, nd]) (rb ++ [nd, cols]) = .ok (bshape ++ [R, cols]))
+    (b : List Nat) (hb : b.length = bshape.length) (r c : Nat)
+    (hidx : ∀ k, k < K → idx.get (restrictIdx ib b ++ [r, k]) < nd) :
+    ∃ t, leftInterp idx val rhs = .ok t ∧ t.shape = bshape ++ [R, cols] ∧
+      t.get (b ++ [r, c]) = sumN nd fun a =>
+        interpW K (fun r k => idx.get (restrictIdx ib b ++ [r, k])) (fun r k => val.get (restrictIdx vb b ++ [r, k])) r a
+          * rhs.get (restrictIdx rb b ++ [a, c]) :=
+  _root_.LinOp.C20.left_interp_batched_def idx val rhs ib vb rb bshape R K nd cols hi hv hr hmb b hb r c hidx
+
+/-- `left_t_interp` — the WHOLE function for a matrix right-hand side with independently broadcast batch shapes: at batch index `b`
+the result is `W[restrict b]ᵀ · rhs[restrict b]`. -/
+theorem left_t_interp_batched_def {α : Type} [CommRing α] (idx : Tn Nat) (val rhs : Tn α) (ib vb rb bshape : List Nat)
+    (D K outDim cols : Nat)
+    (hi : idx.shape = ib ++ [D, K]) (hv : val.shape = vb ++ [D, K]) (hr : rhs.shape = rb ++ [D, cols])
+    (hmb : matmulBroadcastShape (ib ++ [outDim, D]) (rb ++ [D, cols]) = .ok (bshape ++ [outDim, cols]))
+    (b : List Nat) (hb : b.length = bshape.length) (o c : Nat) :
+    ∃ t, leftTInterp idx val rhs outDim = .ok t ∧ t.shape = bshape ++ [outDim, cols] ∧
+      t.get (b ++ [o, c]) = sumN D fun d =>
+        interpW K (fun d k => idx.get (restrictIdx ib b ++ [d, k])) (fun d k => val.get (restrictIdx vb b ++ [d, k])) d o
+          * rhs.get (restrictIdx rb b ++ [d, c]) :=
+  _root_.LinOp.C20.left_t_interp_batched_def idx val rhs ib vb rb bshape D K outDim cols hi hv hr hmb b hb o c
+
+/-- satisfiable: interpolation batch `(2, 1)` against right-hand-side batch `(3,)` -/
+example : matmulBroadcastShape ([2, 1] ++ [2, 3]) ([3] ++ [3, 2]) = .ok ([2, 3] ++ [2, 2]) ∧
+    matmulBroadcastShape ([2, 1] ++ [5, 2]) ([3] ++ [2, 2]) = .ok ([2, 3] ++ [5, 2]) ∧ restrictIdx [2, 1] [1, 2] = [1, 0] ∧
+    restrictIdx [3] [1, 2] = [2] := by decide
+
+/-- `toeplitz_matmul(c, r, M)` / `sym_toeplitz_matmul(c, M)` — the WHOLE function with batch broadcasting (column / row of batch
+shape `cb`, right-hand side of batch shape `xb`; any ranks, size-1 dimensions): shape check, `_matmul_broadcast_shape`, `expand`, the
+first-element check over every member of the broadcast batch, circulant embedding, FFT contract, slice.  At batch index `b` the result
+is `T[restrict b] · M[restrict b]`, for every `n ≥ 1` and every batch shape. -/
+theorem toeplitz_matmul_batched_def {α : Type} [CommRing α] [DecidableEq α] (c r x : Tn α) (cb xb bshape : List Nat) (n p : Nat)
+    (hn : 1 ≤ n) (hc : c.shape = cb ++ [n]) (hr : r.shape = cb ++ [n]) (hx : x.shape = xb ++ [n, p])
+    (hmb : matmulBroadcastShape (cb ++ [n, n]) (xb ++ [n, p]) = .ok (bshape ++ [n, p]))
+    (h0 : ∀ b' ∈ allIdx bshape, c.get (restrictIdx cb b' ++ [0]) = r.get (restrictIdx cb b' ++ [0])) :
+    ∃ t, toeplitzMatmul true c r x = .ok t ∧ t.shape = bshape ++ [n, p] ∧
+      ∀ (b : List Nat), b.length = bshape.length → ∀ i k, i < n →
+        t.get (b ++ [i, k]) = sumN n fun j =>
+          toeplitzEntry (fun a => c.get (restrictIdx cb b ++ [a])) (fun a => r.get (restrictIdx cb b ++ [a])) i j
+            * x.get (restrictIdx xb b ++ [j, k]) :=
+  _root_.LinOp.C20.toeplitz_matmul_batched_def c r x cb xb bshape n p hn hc hr hx hmb h0
+
+example : matmulBroadcastShape ([2, 1] ++ [3, 3]) ([1, 3] ++ [3, 2]) = .ok ([2, 3] ++ [3, 2]) := by decide
+
+/-- `apply_permutation(K, left, right)` — the WHOLE function with batched (partial) permutations whose batch shapes broadcast against
+the matrix' batch shape (any ranks, size-1 dimensions, more batch dimensions than `K`): entry `(b, i, j)` of the result is
+`K[restrict b][left[restrict b][i], right[restrict b][j]]`, i.e. `Π_l K Π_rᵀ` per batch member (with `apply_perm_def`). -/
+theorem apply_perm_batched_def {α : Type} (K : Tn α) (l r : Tn Nat) (kb lb rb b1 bshape : List Nat) (m n nl nr : Nat)
+    (hK : K.shape = kb ++ [m, n]) (hl : l.shape = lb ++ [nl]) (hr : r.shape = rb ++ [nr])
+    (h1 : broadcastShapes kb lb = some b1) (h2 : broadcastShapes b1 rb = some bshape)
+    (b : List Nat) (hb : b.length = bshape.length) (i j : Nat) :
+    ∃ t, applyPerm K (some l) (some r) = .ok t ∧ t.shape = bshape ++ [nl, nr] ∧
+      t.get (b ++ [i, j]) =
+        K.get (restrictIdx kb b ++ [l.get (restrictIdx lb b ++ [i]), r.get (restrictIdx rb b ++ [j])]) :=
+  _root_.LinOp.C20.apply_perm_batched_def K l r kb lb rb b1 bshape m n nl nr hK hl hr h1 h2 b hb i j
+
+example : broadcastShapes [3] [2, 1] = some [2, 3] ∧ broadcastShapes [2, 3] [3] = some [2, 3] := by decide
+
+/-- `inverse_permutation` on a batch of permutation vectors of shape `(*batch, n)`, ANY batch shape: `inv[b, p[b, i]] = i` for
+every injective batch member. -/
+theorem inverse_perm_batched_def (p : Tn Nat) (bs : List Nat) (n : Nat) (hp : p.shape = bs ++ [n]) (b : List Nat)
+    (hinj : ∀ x y, x < n → y < n → p.get (b ++ [x]) = p.get (b ++ [y]) → x = y) (i : Nat) (hi : i < n) :
+    (inversePerm p).shape = bs ++ [n] ∧ (inversePerm p).get (b ++ [p.get (b ++ [i])]) = i :=
+  _root_.LinOp.C20.inverse_perm_batched_def p bs n hp b hinj i hi
+
+/-- `toeplitz_matmul(c, r, v)` / `sym_toeplitz_matmul(c, v)` with a 1-D right-hand side and column / row of ANY batch shape `cb`: the
+vector is unsqueezed, broadcast against every batch member and squeezed again — shape `(cb…, n)` and `out[b] = T[b] · v`, every `n ≥ 1`. -/
+theorem toeplitz_matmul_vector_batched_def {α : Type} [CommRing α] [DecidableEq α] (c r x : Tn α) (cb : List Nat) (n : Nat) (hn : 1 ≤ n)
+    (hc : c.shape = cb ++ [n]) (hr : r.shape = cb ++ [n]) (hx : x.shape = [n])
+    (h0 : ∀ b' ∈ allIdx cb, c.get (restrictIdx cb b' ++ [0]) = r.get (restrictIdx cb b' ++ [0])) :
+    ∃ t, toeplitzMatmul true c r x = .ok t ∧ t.shape = cb ++ [n] ∧
+      ∀ (b : List Nat), b.length = cb.length → ∀ i, i < n →
+        t.get (b ++ [i]) = sumN n fun j =>
+          toeplitzEntry (fun a => c.get (restrictIdx cb b ++ [a])) (fun a => r.get (restrictIdx cb b ++ [a])) i j * x.get [j] :=
+  _root_.LinOp.C20.toeplitz_matmul_vector_batched_def c r x cb n hn hc hr hx h0
+
+/-- `left_interp` with a 1-D right-hand side (the `index_select` branch) and interpolation tensors of ANY batch shape: shape
+`(vb…, R)`, entry `o = (b…, r)` is `Σ_a W[b][r, a] · rhs[a]`. -/
+theorem left_interp_vector_def {α : Type} [CommRing α] (idx : Tn Nat) (val rhs : Tn α) (vb : List Nat) (R K n : Nat)
+    (hi : idx.shape = vb ++ [R, K]) (hv : val.shape = vb ++ [R, K]) (hr : rhs.shape = [n]) (o : List Nat)
+    (hidx : ∀ k, k < K → idx.get (o ++ [k]) < n) :
+    ∃ t, leftInterp idx val rhs = .ok t ∧ t.shape = vb ++ [R] ∧
+      t.get o = sumN n fun a =>
+        interpW K (fun _ k => idx.get (o ++ [k])) (fun _ k => val.get (o ++ [k])) 0 a * rhs.get [a] :=
+  _root_.LinOp.C20.left_interp_vector_def idx val rhs vb R K n hi hv hr o hidx
+
+/-- `left_t_interp` with a 1-D right-hand side and interpolation tensors of batch shapes `ib` / `vb`: shape `(ib…, output_dim)` and
+`out[b] = W[b]ᵀ · rhs`. -/
+theorem left_t_interp_vector_def {α : Type} [CommRing α] (idx : Tn Nat) (val rhs : Tn α) (ib vb : List Nat) (D K outDim : Nat)
+    (hi : idx.shape = ib ++ [D, K]) (hv : val.shape = vb ++ [D, K]) (hr : rhs.shape = [D])
+    (b : List Nat) (hb : b.length = ib.length) (q : Nat) :
+    ∃ t, leftTInterp idx val rhs outDim = .ok t ∧ t.shape = ib ++ [outDim] ∧
+      t.get (b ++ [q]) = sumN D fun d =>
+        interpW K (fun d k => idx.get (restrictIdx ib b ++ [d, k])) (fun d k => val.get (restrictIdx vb b ++ [d, k])) d q
+          * rhs.get [d] :=
+  _root_.LinOp.C20.left_t_interp_vector_def idx val rhs ib vb D K outDim hi hv hr b hb q
+
+/-! ### translator obligations: the source text read by `harness/extract/c20_kernels.py` is what the model mirrors -/
+
+open LinOp.Generated in
+/-- every function of the covered modules is either mirrored or explicitly listed as not mirrored, and every mirrored function exists. -/
+theorem gen_inventory :
+    (C20.publicFunctions.all fun f => listedFunctions.contains f) = true ∧
+    (listedFunctions.all fun f => C20.publicFunctions.contains f) = true := by decide +kernel
+
+open LinOp.Generated in
+/-- `bdsmm`: branch order, repeat sizes `output_size // sparse_size` over the right-aligned shapes, `batch_shape / num_rows / num_cols`
+taken from the REPEATED sparse tensor, row-major batch multiplication factors, row offset `alpha=num_rows` on `indices[0]` and column
+offset `alpha=num_cols` on `indices[1]`, `sparse_2d` of size `(B·rows, B·cols)`, dense operand expanded then reshaped to
+`(B·cols, -1)`, result viewed as `(*batch, rows, -1)`; second branch: `(rows, B·cols)` view through two transposes. -/
+theorem gen_bdsmm :
+    C20.bdsmmBranchTests = ["sparse.ndimension() > 2", "dense.dim() > 2"] ∧
+    C20.bdsmmRepeatExpr = "output_size // sparse_size | (output_size, sparse_size) in zip(expanded_sparse_shape, unsqueezed_sparse_shape)" ∧
+    C20.bdsmmExpandDense = "dense.expand(*output_shape[:-2], dense.size(-2), dense.size(-1))" ∧
+    C20.bdsmmUnpack = "(*batch_shape, num_rows, num_cols) = sparse.shape" ∧
+    C20.bdsmmFactor = "[torch.Size(batch_shape[i + 1:]).numel() for i in range(len(batch_shape))]" ∧
+    C20.bdsmmAssignment = "sparse._indices()[:-2].t() @ batch_multiplication_factor" ∧
+    C20.bdsmmOffsets.map (fun x => (x.1, x.2.1)) = expectedBdsmmOffsets ∧
+    C20.bdsmmOffsets.map (fun x => x.2.2) = ["batch_assignment", "batch_assignment"] ∧
+    C20.bdsmmSparse2dSize = "torch.Size((batch_size * num_rows, batch_size * num_cols))" ∧
+    C20.bdsmmDense2d = "dense.reshape(batch_size * num_cols, -1)" ∧
+    C20.bdsmmView = "torch.dsmm(sparse_2d, dense_2d) ; res.view(*batch_shape, num_rows, -1)" ∧
+    C20.bdsmm2dDense = "dense.transpose(0, 1).reshape(-1, batch_size * num_cols)" ∧
+    C20.bdsmm2dResult = "torch.dsmm(sparse, dense.transpose(0, 1).reshape(-1, batch_size * num_cols)) ; res.view(-1, batch_size, num_cols) ; res.transpose(0, 1).reshape(*batch_shape, -1, num_cols)" := by
+  decide +kernel
+
+open LinOp.Generated in
+/-- `sparse_repeat`: new leading dims iff more repeat sizes than dims, loop over `enumerate(repeat_sizes)`, guard `repeat_size > 1`,
+offset `arange(repeat_size) * sparse.size(i)` (the D28 fix), new size `repeat_size * sparse.size(i)` at position `i`. -/
+theorem gen_sparse_repeat :
+    C20.repeatNewDimsTest = "len(repeat_sizes) > len(sparse.shape)" ∧
+    C20.repeatLoopIter = "(i, repeat_size) in enumerate(repeat_sizes)" ∧ C20.repeatGuard = "repeat_size > 1" ∧
+    C20.repeatFactor = "torch.arange(0, repeat_size, dtype=new_indices.dtype, device=new_indices.device).unsqueeze_(1) * sparse.size(i)" ∧
+    C20.repeatNewSize = "torch.Size((*sparse.shape[:i], repeat_size * sparse.size(i), *sparse.shape[i + 1:]))" := by
+  decide +kernel
+
+open LinOp.Generated in
+/-- `sparse_getitem`: rank / length guards, items processed LAST to FIRST, negative ints normalised by the current size (the D31 fix),
+int mask `eq`, scalar `sum(values)`, `slice.indices(size[i])`, step test, slice mask `lt(stop) & ge(start)`, `sub_(start)` on the copy. -/
+theorem gen_sparse_getitem :
+    C20.getitemRankTest = "not sparse.ndimension() <= 2" ∧ C20.getitemLenTest = "len(idxs) > sparse.ndimension()" ∧
+    C20.getitemLoopIter = "(i, idx) in list(enumerate(idxs))[::-1]" ∧
+    C20.getitemNegTest = "idx < 0" ∧ C20.getitemNegFix = "idx = idx + size[i]" ∧ C20.getitemIntMask = "indices[i].eq(idx)" ∧
+    C20.getitemScalarReturn = "sum(values)" ∧ C20.getitemSliceIndices = "idx.indices(size[i])" ∧ C20.getitemStepTest = "step != 1" ∧
+    C20.getitemSliceMask = "indices[i].lt(stop) & indices[i].ge(start)" ∧ C20.getitemStartSub = "new_indices[i].sub_(start)" := by
+  decide +kernel
+
+open LinOp.Generated in
+/-- `toeplitz_getitem` (`index = i - j`, row for negative index) , `DSMM.forward/backward` (`bdsmm(ctx.sparse.mT, grad_output)`),
+`stable_qr`'s literals (`1e-6` threshold and jitter magnitude, `1.0` sign for zero pivots). -/
+theorem gen_small_kernels :
+    C20.tgIndex = "i - j" ∧ C20.tgTest = "index < 0" ∧ C20.tgNegReturn = "toeplitz_row[abs(index)]" ∧
+    C20.tgPosReturn = "toeplitz_column[index]" ∧
+    C20.dsmmForwardSaves = "sparse" ∧ C20.dsmmForwardReturn = "bdsmm(ctx.sparse, dense)" ∧
+    C20.dsmmBackwardReturn = "(None, bdsmm(ctx.sparse.mT, grad_output))" ∧
+    C20.qrFloatLiterals = [(1 : Rat) / 1000000, 1, (1 : Rat) / 1000000] := by
+  decide +kernel
 
 
 end LinOp.C20.Property
